@@ -10,83 +10,83 @@ HOOK_COMMITS = subprocess.run(
 CHECKS = {
     "C01": ("exploration", "exhaustive finite grids of real sender->receiver sessions against a reference oracle", "gridx",
             "DESIGN.md §3 C01",
-            "Every case of two exhaustive configuration grids (scheme x E x B x parity x every length x cenc x signalling; FDT mode x interleave x multiplex x objects x queues x transfer count x receive-once x source x writer) is run through the real Sender and the real MultiReceiver and compared with the bytes and metadata given to the sender. Complete inside the grids, nothing outside them.",
+            "Every case of exhaustive configuration grids is run through the real Sender and the real receiver and compared with the bytes and metadata given to the sender: (core) scheme x (E,B) x parity x every length up to 3EB+2 (7EB+2 thorough) x cenc x in-band/FDT-only FTI and CENC, Raptor(Q) sub-block counts N up to 350 and alignments, objects of 255-1100 source blocks, lengths at the scheme maximum and one above (refused); (sessions) FDT mode x interleave x multiplex x 1..n objects x queues x transfer count x receive-once x buffer/stream/file source x buffer/filesystem writer x three receiver configurations x MultiReceiver::push or Receiver::push_data; (mixed) three objects of different schemes, profiles, and the full product of TOI width classes x TSI width classes. Complete inside the grids, nothing outside them.",
             "Trusted: the harness's monitoring writer and its expected-metadata computation; third-party codecs at larger parameters; HashMap iteration order is not enumerated (oracles are order-invariant)."),
     "C02": ("fault_enumeration", "exhaustive enumeration of all loss subsets / duplication multisets of recorded real sessions, each pushed into the real receiver", "gridx",
             "DESIGN.md §3 C02",
-            "For every recorded session of up to 14 object packets (scheme x (k,parity) x block shape x interleave x signalling x transfer count) all 2^n loss subsets and all 3^n lost/once/twice vectors (n <= 9) are delivered, with the FDT first, only after the object, or never; whenever the harness's own RFC decode says the property's premise holds the real receiver must deliver exactly one complete byte-exact copy.",
+            "For every recorded single-object session of up to 11 (16 thorough) object packets (scheme x (k,parity) x block shape x interleave x signalling x transfer count) all 2^n loss subsets and all 3^n lost/once/twice vectors (n <= 7 / 10) are delivered with the FDT first, only after the object, or never; sessions of 30-50 packets get every pattern of at most 2 / 3 losses and every (loss, duplicate) pair; two-object sessions (multiplexed or sequential, one or two queues, both publish modes, 60 configurations) get every loss subset over ALL packets, FDT packets included. Whenever the harness's own RFC decode says the property's premise holds (a complete FDT instance listing the object arrived, every block keeps enough symbols) the real receiver must deliver exactly one complete byte-exact copy.",
             "Trusted: the recoverability predicate (independent RFC decode + 128-bit partition reference); 'FDT late' = the recorded FDT packets re-delivered after the object; sessions above 14 packets are outside the bound (no sampling is used)."),
     "C03": ("model_checking", "exhaustive exploration of all orderings / repetition sequences / sub-multisets / single-packet corruptions of recorded sessions on the real receiver", "gridx",
             "DESIGN.md §3 C03",
-            "All n! orderings (n <= 7 quick, 8 thorough), all sequences with repetition up to length 5/6, all subsets in emission and reverse order, and every payload byte x {0x01,0x80,0xFF} and every truncation of every object packet, of recorded real sessions (all schemes, cenc, in-band and FDT-only, two-transfer and carousel sessions) are pushed into the real MultiReceiver; on every execution every writer that saw complete must hold exactly the sender's bytes, no writer gets two terminal calls, and an altered object never stays open.",
+            "All n! orderings (n <= 7 quick, 9 thorough), all sequences with repetition up to length 5/7, all subsets in emission and reverse order, every payload byte x {0x01,0x80,0xFF} and every truncation of every object packet, and families of whole-session orders for large sessions, of recorded real sessions (all schemes incl. Raptor(Q) with sub-blocks and degenerate partitions, cenc, every FTI x CENC x MD5 signalling combination, session default OTI resembling the object's, two-transfer, carousel, two-object sessions in both publish modes, large incompressible content-encoded objects wrapping the inflate ring) are pushed into the real MultiReceiver; on every execution every writer that saw complete must hold exactly the sender's bytes of that TOI, no writer gets two terminal calls, and an altered object never stays open.",
             "Trusted: monitoring writer; one corrupted packet per history; MD5 collisions ignored."),
     "C07": ("exploration", "exhaustive finite grid of (B,E,L) triples on the real partition functions against a 128-bit RFC 5052 reference", "gridx",
             "DESIGN.md §3 C07",
-            "All (B,E,L) with B<=64, E<=24, L<=4000 (quick: 32/12/1500) and a full boundary grid up to B=2^32-1, E=65535, L=2^48-1 are evaluated on the real block_partitioning and block_length (every sbn) against a u128 reference; the B that the real EXT_FTI parser reconstructs from RaptorQ/Raptor (F,Z,T) is partitioned and compared; a real No-Code sender's (SBN,ESI) structure is compared on a small grid. Overflow checks and debug assertions are on.",
+            "All (B,E,L) with B<=32, E<=12, L<=1500 (thorough: 200/48/12000, 115 M triples) plus a boundary grid up to B=2^32-1, E=65535, L=2^48-1 and a structured mid-range grid (T around the multiples of B for B up to 2^20, L at / below / above a symbol boundary) are evaluated on the real block_partitioning and block_length (every sbn, or first/last 2048 and the large/small boundary) against a u128 reference; the B that flute's EXT_FTI parser takes from an independently encoded FTI (No-Code 32-bit B, RS, under-specified RS) or reconstructs from Raptor(Q) (F,Z,T) is partitioned and compared; real sender sessions (No-Code small grid; object-level Raptor(Q) OTIs under three session default OTIs) must show the reference structure on the wire and their in-band FTI must lead flute's parser to the sender's partition. Overflow checks and debug assertions are on.",
             "Trusted: the 128-bit reference written from RFC 5052 section 9.1; random triples are not used."),
     "C06": ("exploration", "exhaustive finite grids of packets: flute's encoder against an independent RFC decoder and an independent RFC encoder against flute's parser", "gridx",
             "DESIGN.md §3 C06 + appendix A",
-            "Encode direction: the full product of CCI/TSI/TOI width classes (min, max, pattern per class) x close flag x 6 codepoints x 8 extension sets, plus per-scheme EXT_FTI boundary values, payload-id ranges, SCT instants from 1970 to the NTP era end, FDT ids and versions, built by flute's packet builder and decoded field by field by rfc.rs and by flute itself. Decode direction: rfc.rs packets over every (C,S,O,H) combination, flags, extension orders with unknown variable-length (HEL 1..200) and fixed-length extensions at every position, FTI / payload-id / SCT boundary values, parsed by flute.",
+            "Encode direction: the full product of CCI/TSI/TOI width classes (min, max, pattern per class) x close flag x 6 codepoints x 8 extension sets, per-scheme EXT_FTI boundary values, payload-id ranges, SCT instants from 1970 to the NTP era end, FDT ids and versions, and a walking one through every bit of every variable-width field, built by flute's packet builder and decoded field by field by rfc.rs and by flute itself; the sender's close-session packet; and sender streams: every packet of real Sender sessions (5 schemes x 6 TOI widths x 6 TSI classes x 2 profiles x start ids around the 20-bit wrap x SCT x FDT encodings x publish modes) decoded by both. Decode direction: rfc.rs packets over every (C,S,O,H) combination, flags, extension orders with unknown variable-length (HEL 1..200) and fixed-length extensions at every position, six EXT_TIME shapes (SCT-High/Low, ERT, SLC), FTI / payload-id / SCT boundary values and walking ones, parsed by flute.",
             "Trusted: rfc.rs (written from the RFC texts, appendix A of DESIGN.md). Values inside a width class are the class bounds and one pattern, not every value."),
     "C08": ("model_checking", "exhaustive configuration grid x one deviation (remove_object after every packet index) on the real Sender, stream decoded by an independent codec", "seqx",
             "DESIGN.md §3 C08",
-            "For scheme x (E,B) x parity x every L <= 3EB+2 x interleave 1..3 x cenc x transfer count 1..3 x carousel, and for the removal of the object after every packet index with and without immediate stop, the real Sender is drained and every complete transfer (delimited by Subscriber events) is checked symbol by symbol against the RFC slices of the transfer-encoded object; B only on the final packet / the one packet after a forced stop / the lone packet of an empty object; A only on read_close_session.",
+            "For scheme x (E,B) x parity x every L <= 3EB+2 (5EB+2 and more (E,B) thorough) x interleave 1..3 x cenc x transfer count 1..3 x carousel, objects of 255-1500 source blocks, and the removal of the object after every packet index with and without immediate stop, the real Sender is drained and every complete transfer (delimited by Subscriber events) is checked symbol by symbol against the RFC slices of the transfer-encoded object; B only on the final packet / the one packet after a forced stop / the lone packet of an empty object; A only on read_close_session.",
             "Trusted: rfc.rs decode and the 128-bit partition reference; transfers cut by a forced stop are exempt from completeness as the property states."),
     "C04": ("exploration", "exhaustive finite families of datagram histories (depth <= 3 plus in-context substitutions) on the real receiver under panic / hang / heap / usability oracles", "gridx",
             "DESIGN.md §3 C04",
-            "All byte strings of length 0..3; every packet of a corpus of valid sessions (all schemes, signalling modes, cenc, empty object, close session) x every header byte x substitutions (all 255 in the thorough tier) and every truncation, delivered in context; products of boundary values of every EXT_FTI field x payload-id field x payload length per scheme and of version/flags/C/S/O/H/HDR_LEN/HEL; crafted FDT instances (OTI attribute products at File and instance level, TOI/length/Expires/Content-Encoding products, every truncation of a valid instance, malformed documents). Every call must return Ok/Err (catch_unwind, overflow checks and debug assertions on), within the watchdog, under a 64 MB heap ceiling with a 64 kB cache limit, and a valid session pushed after any rejected packet must still be delivered.",
+            "All byte strings of length 0..3; every packet of a corpus of valid sessions (all schemes, signalling modes, cenc, empty object, close session) x every header byte x substitutions (all 255 in the thorough tier) and every truncation, delivered in context; products of boundary values of every EXT_FTI field x payload-id field x payload length per scheme and of version/flags/C/S/O/H/HDR_LEN/HEL; crafted FDT instances (OTI attribute products at File and instance level, TOI/length/Expires/Content-Encoding products, every truncation and XML byte substitutions of a valid instance, malformed documents); payload length x content encoding; and the corpus delivered through flute's own buffer and filesystem writers with every single loss, close-bit flip, loss + early flag, reversed and doubled. Every call must return Ok/Err (catch_unwind, overflow checks and debug assertions on), within the watchdog, under a 64 MB heap ceiling with a 64 kB cache limit, and a valid session pushed after any rejected packet must still be delivered.",
             "Trusted: counting allocator and watchdog; the quantifier's random mutation sequences are sampling and are not used (stated in the evidence); histories longer than the corpus sessions are outside the bound."),
     "C09": ("model_checking", "stateless deviation-bounded exploration of environment answers (builder decision, open/write failures at every call, receiver drop and timeout+cleanup after every packet) on the real receiver", "seqx",
             "DESIGN.md §3 C09",
-            "For every recorded session x 7 delivery orders (plus harness-written FDTs without OTI so that the OTI arrives in-band after attachment) the choice-sequence explorer enumerates every combination of at most 1 (quick) / 2 (thorough) non-default environment answers; on every execution each writer's call log is run through the typestate automaton (open once, writes, one terminal, nothing after; only a terminal call after a failed open), writes must form a prefix of the content, complete only with the full content and no failed write, and after the receiver is dropped every opened writer is terminated.",
+            "For every recorded session x 7 delivery orders, plus harness-written FDTs (without OTI so that the OTI arrives in-band after attachment; announcing the MD5 of other bytes), a 10-byte object cache with every block pending, forged copies of an object packet (each payload-id byte set to 0xFF), and receive-twice receivers, the choice-sequence explorer enumerates every combination of at most 2 (quick) / 3 (thorough) non-default environment answers (builder decision, open failure, write failure at any call, receiver drop and timeout+cleanup after any packet); on every execution each writer's call log is run through the typestate automaton (open once, writes, one terminal, nothing after), writes must form a prefix of the content (authentic histories), complete only with the full content, no failed write and a matching MD5, and after the receiver is dropped every opened writer is terminated.",
             "Trusted: monitoring writer; deviation bound; packet orders are 7 fixed shapes per session (all orders are C03's job)."),
     "C11": ("model_checking", "explicit-state BFS over the real Sender's transition function, states merged on a canonical fingerprint of the whole Sender plus monitor state", "statex",
             "DESIGN.md §3 C11",
-            "All histories over {add (catalogue order), publish, remove, one read, tick} to depth 8 (quick) / 11 (thorough, state cap reported) for both publish modes x multiplex 1..2 x 1..2 queues x multi-packet and single-packet FDT instances; the monitor reassembles every FDT instance from the TOI-0 packets with the independent codec and requires, for every object packet, a completely emitted instance listing its TOI, no object packet inside a partly emitted instance, and none between a publication (explicit, or automatic at transfer start) and the complete emission of a new instance.",
+            "All histories over {add (catalogue order), publish, remove, one read, tick, read-only API calls} to depth 8 (quick) / 11 (thorough, state cap reported) for both publish modes x multiplex 1..2 x 1..2 queues x multi-packet and single-packet FDT instances x four catalogues (plain; repeated transfer + carousel + start time; transfer counts 0 and 3 + zero-delay carousel; low priority first); the monitor reassembles every FDT instance from the TOI-0 packets with the independent codec and requires, for every object packet, a completely emitted instance listing its TOI, no object packet inside a partly emitted instance, and none between a publication (explicit, or automatic at transfer start) and the complete emission of a new instance.",
             "Trusted: rfc.rs, the fingerprint (compact derived Debug of the Sender; checked on every run against the general canonicaliser and by re-running the search), the small catalogue of 3 objects."),
     "C12": ("model_checking", "explicit-state BFS over the real Sender's transition function with a lifecycle reference monitor", "statex",
             "DESIGN.md §3 C12",
-            "All histories over {add, publish, remove, trigger(none|+2 ticks), one read, drain, tick 0.5 s / 1.5 s} to depth 7 (quick) / 10 (thorough) for max_transfer_count 1..3 x carousel none/delay/interval x immediate stop x publish mode; a reference counter per object fed by Subscriber events and independently decoded packets decides: never more transfers than configured, finished or removed objects disappear from is_added / nb_objects / get_objects_in_fdt, nb_transfers equals the Stop events (and the wire at quiescent points), removal semantics (nothing after removing a waiting object; at most one flagged packet after a forced stop; no new transfer after removal), a read that returns None never leaves an eligible transfer or a due carousel turn behind, drains terminate.",
+            "All histories over {add, publish, remove, trigger(none|+2 ticks), one read, drain, tick 0.5 s / 1.5 s} to depth 7 (quick) / 9 (thorough, cap 60 k states reported) for max_transfer_count 1..3 x carousel none/delay/interval/zero delay/zero interval x immediate stop x publish mode x multiplex 1..2; a reference counter per object fed by Subscriber events and independently decoded packets decides: never more transfers than configured, finished or removed objects disappear from is_added / nb_objects / get_objects_in_fdt, nb_transfers equals the Stop events, removal semantics (nothing after removing a waiting object; at most one flagged packet after a forced stop; no new transfer after removal), a read that returns None never leaves an eligible transfer or a due carousel turn behind, drains terminate.",
             "Trusted: rfc.rs, fingerprint (as C11), 2 objects of 2-3 packets; carousel clause applied per turn for max_transfer_count > 1 (DESIGN §5)."),
     "C13": ("model_checking", "exhaustive workload grid x one deviation (object added and published at every packet index) on the real Sender, scheduling oracle on every packet", "seqx",
             "DESIGN.md §3 C13",
-            "Every workload of 1..3 queues x 0..3 objects per queue (sizes empty / 1 symbol / 2 blocks / 3 blocks) x multiplex_files 0..3 x interleave_blocks 1..3 x add order (high or low priority first) x No-Code / Reed-Solomon, and for each the addition+publication of a further object at every packet index into every queue, is run on the real Sender to quiescence; on every packet: no lower-queue packet while a published higher-queue object still has packets to send, first transfers start in add order per queue, at most max(1,multiplex) objects in transmission per queue, exactly-one-packet round-robin fairness between objects in flight, at most interleave_blocks partly sent blocks, blocks opened in increasing SBN, everything published is eventually sent.",
+            "Every workload of 1..3 queues x 0..3 objects per queue (sizes empty / 1 symbol / 2 blocks / 3 blocks) x multiplex_files 0..3 (uniform and every non-uniform per-queue assignment) x interleave_blocks 1..3 x add order x No-Code / Reed-Solomon x both publish modes, and for each the addition(+publication) of a further object at every packet index into every queue, is run on the real Sender to quiescence; on every packet: no lower-queue packet while a ready higher-queue object still has packets to send, first transfers start in add order per queue, at most max(1,multiplex) objects in transmission per queue, exactly-one-packet round-robin fairness, at most interleave_blocks partly sent blocks opened in increasing SBN, everything published is eventually sent. Priority x timing: one timed object (start time, carousel delay/interval, pacing) per higher queue over plain long objects below, fixed poll step and per-poll budget: the packets of queues <= q leave at the same (poll, order) with and without the lower queues, inside one instant no higher queue follows a lower one, an untimed object of the top queue is never overtaken, and a start-time / interval-carousel object that is due goes first.",
             "Trusted: rfc.rs decode; start times / pacing / carousel are excluded here (C14)."),
     "C14": ("model_checking", "exhaustive enumeration of polling schedules (all sequences of virtual-clock advances) x timing configurations x trigger deviation on the real Sender", "seqx",
             "DESIGN.md §3 C14",
-            "All 4^5 (quick) / 4^7 (thorough) polling schedules with clock steps {0,1,2,5} ticks of 250 ms, for every combination of start time {none, past, now, +3 ticks} x carousel {none, delay 0/2 ticks, interval 0/3 ticks} x target {none, WithinDuration 0 / 4 ticks, WithinTime past / +6 ticks, as-fast-as-possible} x size {empty, 1, 3 symbols} x a higher-priority object present or not, plus trigger_transfer_at(none | +2 ticks) at every poll index on a fixed sub-grid of schedules; oracle on every timed packet: never before the start time (configured or last accepted trigger), carousel turn never before end+delay / start+interval unless re-triggered, paced packet i never before start + i*target/n and sent by the first poll at or after its due time; no panic; after advancing the clock far enough every transfer completes.",
+            "All 4^5 (quick) / 4^7 (thorough) polling schedules with clock steps {0,1,2,5} ticks of 250 ms, for every combination of start time {none, past, now, +3 ticks} x carousel {none, delay 0/2 ticks, interval 0/3 ticks} x target {none, WithinDuration 0 / 4 ticks, WithinTime past / +6 ticks, as-fast-as-possible} x size {empty, 1, 3 symbols} x a higher-priority object present or not x five FDT carousel periods on a sub-grid, plus trigger_transfer_at(none | +2 ticks) at every poll index on a fixed sub-grid of schedules; oracle on every timed packet: never before the start time (configured or last accepted trigger), carousel turn never before end+delay / start+interval unless re-triggered, paced packet i never before start + i*target/n and sent by the first poll at or after its due time, an FDT instance never re-emitted before its carousel period nor twice at one instant; no panic; after advancing the clock far enough every transfer completes.",
             "Trusted: the virtual clock (time is an argument of every Sender call); carousel clause literal for max_transfer_count = 1 only (DESIGN §5)."),
     "C15": ("model_checking", "explicit-state BFS over the real Sender/allocator + complete walks of the 16-bit TOI space + loom exhaustive interleavings of the real toiallocator.rs", "statex",
             "DESIGN.md §3 C15",
-            "Sequential: all histories over {allocate, drop handle j, add object (implicit TOI), add object with handle j, publish+drain} to depth 6 (quick) / 8 (thorough) for every TOI width x initial values {0, 1, max-1, max, max+1, 2^112+5, u128::MAX} against a reference set of live TOIs, with the TOI decoded from the object's packets and the FDT entry compared with the value add_object returned; 14 complete laps of the 16-bit space with values held (wrap-around, skip of reserved values). Concurrent: loom explores every interleaving (preemption bound 3 in quick, unbounded in thorough) of three bodies on the real ToiAllocator compiled with loom's Mutex/Arc: live handles pairwise distinct, non-zero, in range; no deadlock; Send/Sync of Toi and Sender asserted at compile time.",
+            "Sequential: all histories over {allocate, drop handle j, add object (implicit TOI), add object with handle j, add object after set_toi(j) then set_toi(k), publish+drain} to depth 6 (quick) / 9 (thorough) for every TOI width x initial values {0, 1, max-1, max, max+1, 2^112+5, u128::MAX} against a reference set of live TOIs, with the TOI decoded from the object's packets and the FDT entry compared with the value add_object returned; 40 complete laps of the 16-bit space with values held by handles, by live objects with an explicit TOI and by live objects with an implicit TOI (wrap-around, skip of reserved values). Concurrent: loom explores every interleaving (preemption bound 3 in quick, unbounded in thorough) of three bodies on the real ToiAllocator compiled with loom's Mutex/Arc: live handles pairwise distinct, non-zero, in range; no deadlock; Send/Sync of Toi and Sender asserted at compile time.",
             "Trusted: loom's model of Mutex/Arc; the random default initial value is run 64 times and labelled sampling (it shares the code path of the explicit large values)."),
     "C20": ("model_checking", "stateless deviation-bounded exploration of the size returned by every read() of a harness stream feeding the real Sender, differential oracle against the buffer source", "seqx",
             "DESIGN.md §3 C20",
-            "For scheme x (E,B) x every L <= 3EB+2 x transfer count 1..2 x interleave, a real Sender fed by a harness stream whose every read size is an explorer choice among {everything, 1, 2, E+1} is explored with at most 2 (quick) / 3 (thorough) non-default answers, plus six fixed patterns (1-byte, 2-byte, E+1, alternating chunks, a real File, BufReader<File> with a 3-byte buffer); the complete packet sequence (both transfers) must be byte-identical to the same Sender fed the same bytes as a buffer.",
+            "For scheme x (E,B) x every L <= 3EB+2 x transfer count 1..2 x interleave x carousel (three turns) x initial stream position {start, 1, middle, end} x MD5 pass on/off, a real Sender fed by a harness stream whose every read size is an explorer choice among {everything, 1, 2, E+1} is explored with at most 2 (quick) / 3 (thorough) non-default answers, plus nine fixed sources (1-byte, 2-byte, E+1, alternating chunks, a real File, BufReader<File> with a 3-byte buffer, std::io::Cursor<Vec>, BufReader<Cursor>, Cursor<Box<[u8]>>); the complete object packet sequence (all transfers) must be byte-identical to the same Sender fed the same bytes as a buffer.",
             "Trusted: EXT_TIME switched off for the comparison; read-size alphabet and deviation bound."),
     "C16": ("model_checking", "exhaustive enumeration of every join offset of recorded real carousel sessions, suffix pushed into the real receiver", "seqx",
             "DESIGN.md §3 C16",
-            "Real carousel sessions (scheme x 1..3 objects incl. an empty one x in-band / FDT-only OTI+CENC x cenc x delay / interval carousel x publish mode x single- and multi-packet FDT) are recorded over four cycles; for every packet boundary of the first cycle (mid-FDT, mid-block, between objects, between cycles) the stream from there to the end of the second further full cycle is pushed into a fresh receiver, which must complete every object byte-exactly.",
+            "Real carousel sessions (scheme x 1..3 objects incl. an empty one x in-band / FDT-only / split OTI+CENC signalling x cenc x MD5 on/off x delay / interval carousel x publish mode x single- and multi-packet FDT x FDT content encoding x transfer count per turn x interleave) are recorded over four cycles; for every packet boundary of the first cycle (mid-FDT, mid-block, between objects, between cycles) the stream from there to the end of the second further full cycle is pushed into a fresh receiver, which must complete every object byte-exactly.",
             "Trusted: the definition of a cycle (everything emitted at one poll); no loss after the join."),
     "C18": ("model_checking", "exhaustive interleavings of recorded sessions + explicit-state BFS of the TSI filter against a counter reference + deviation-bounded exploration of clock reads for listener events, all on the real MultiReceiver", "statex",
             "DESIGN.md §3 C18",
-            "Isolation: every interleaving of 2-3 recorded sessions (same TSI on two endpoints, two TSIs on one endpoint, same destination with and without source) is pushed into one MultiReceiver and each session's writer/FDT callbacks (with their endpoint and TSI) must equal the session run alone. Filter: BFS over all sequences of the 24 add/remove listen operations (2 endpoints x source/no-source x 2 TSIs, per-TSI and all-TSI) to depth 4 (quick) / 5 (thorough); after every operation 8 probe packets decide processed/dropped against reference counters. Listener: every history over {data s, close-session s, tick+cleanup} up to length 5/6 for 2 sessions, with a 6 s jump of the virtual Instant injected before every single clock read (every pair in thorough); the event word of each session must be (open close)* once the receiver is dropped, a data packet always leaves its session open, a close-session packet always leaves it closed.",
+            "Isolation: every interleaving of 2-4 recorded sessions (same TSI on two endpoints, two TSIs on one endpoint, same destination with and without source; long and short streams) is pushed into one MultiReceiver and each session's writer/FDT callbacks (with their endpoint and TSI) must equal the session run alone. Filter: BFS over all sequences of the 24 add/remove listen operations and set_tsi_filtering to depth 4 (quick) / 7 (thorough), states merged on reference counters + probe vector + the REAL demultiplexing state (hook verif_state); after every operation 8 probe packets decide processed/dropped against reference counters. Listener: every history over {data s, close-session s, tick+cleanup} up to length 5/7 for 2 sessions, with a 6 s jump of the virtual Instant injected before every single clock read (every pair in thorough): the event word of each session must be (open close)* once the receiver is dropped, a data packet leaves its session open, a close-session packet leaves it closed, and after every cleanup a session idle for more than the time-out has been closed and a younger one has not. Registry: every history over {data, close, tick+cleanup, add listener, remove listener k} up to length 6/7: each listener sees exactly what a permanent listener sees between its registration and its removal.",
             "Trusted: the virtual Instant hook (H2) and its read counter; the probe = a single-packet FDT instance observed through fdt_received."),
     "C19": ("model_checking", "exhaustive grid of two-clock scenarios (sender SCT/Expires vs receiver `now`) with harness-crafted packets on the real MultiReceiver, verdict compared with a two-clock reference model", "gridx",
             "DESIGN.md §3 C19",
-            "Full product of SCT-Expires {-1h,-3s,+3s,+1h} x SCT present/absent x receiver clock offset {0, +-3 s, +-1 h, +-400 d, +-20 y} x expiry check on/off x arrival order {FDT then object, object (in-band FTI) then FDT, object (cached) then FDT, FDT-cleanup-object, two objects one early one late} x object estimate-Expires {-1h,-3s,+3s,+1h} x 1- or 3-packet FDT (the last packet's SCT counts): delivered iff the estimate of the sender clock at the moment delivery starts is <= Expires (always with the check off); when not delivered no writer is obtained and nb_objects_error stays 0; with SCT the verdict is the same for every offset. Real Sender sessions (SCT on/off) are run under every offset as a sanity layer.",
+            "Full product of SCT-Expires {-1h,-3s,+3s,+1h} (8 values thorough) x SCT present/absent x receiver clock offset {0, +-3 s, +-1 h, +-400 d, +-20 y} (16 values thorough) x expiry check on/off x six arrival orders {FDT then object, object (in-band FTI) then FDT, object (cached) then FDT, FDT-cleanup-object, two objects one early one late, two FDT instances with the object announced only by the older one} x object estimate-Expires x FDT in 1 packet / 3 packets 1 s apart / 3 packets 40 s apart (the last packet's SCT and arrival anchor the estimate): delivered iff the estimate of the sender clock at the moment delivery starts is <= Expires (always with the check off); when not delivered no writer is obtained and nb_objects_error stays 0; with SCT the verdict is the same for every offset. Real Sender sessions (SCT on/off) are run under every offset as a sanity layer.",
             "Trusted: the two-clock model (DESIGN §3 C19), no transit delay, +-2 s around the expiry instant excluded as the property states."),
     "C17": ("model_checking", "exhaustive traffic-event sequences to a depth bound + pumping (every event and ordered pair repeated) + per-object sweeps on the real MultiReceiver under a counting allocator and the virtual Instant", "seqx",
             "DESIGN.md §3 C17",
-            "Alphabet of 14 traffic events (object packets without FTI / with in-band FTI / with the close flag / far SBN for fixed and fresh TOIs, first fragment of an FDT instance for fixed and fresh ids, complete FDT with FDT-only OTI, other TSI, other endpoint, object-timeout+cleanup, session-timeout+cleanup) x cache {3 packets, 64 kB} x max_objects_error {0,1,2}: all sequences to depth 4 (quick) / 5 (thorough); every event and ordered pair repeated max(400, 8*cache/100) times; four sweeps keeping one object undecodable or unwritable for 800/2000 packets. Oracle: failed-object list <= max_objects_error per session in every state; heap held for one object <= cache + two blocks + stated bookkeeping; no higher heap peak in the last quarter of a pumping run than in the quarter before; after both time-outs and cleanup nb_objects() = 0 and the heap is back to the baseline + 4 kB.",
+            "Alphabet of 16 traffic events (object packets without FTI / with in-band FTI / with the close flag / far SBN for fixed and fresh TOIs, first fragment of an FDT instance for fixed and fresh ids, complete FDT for known and fresh ids, other TSI, other endpoint, half tick, object-timeout and session-timeout ticks, each followed by cleanup) x cache {3 packets, 64 kB} x max_objects_error {0,1,2}: all sequences to depth 4 (quick) / 6 (thorough, 100 M executions); every event and ordered pair repeated max(400, 8*cache/100) times; six sweeps keeping one object undecodable or unwritable for 800/2000 packets incl. 0- and 1-byte payloads. Oracle: failed-object list <= max_objects_error per session in every state; heap held for one object <= cache + two blocks + stated bookkeeping; no higher heap peak in the last quarter of a pumping run than in the quarter before; after every cleanup no object silent for longer than the object time-out and no session (listener events) silent for longer than the session time-out survives; after both time-outs and cleanup nb_objects() = 0 and the heap is back to the baseline + 4 kB.",
             "Trusted: counting allocator (receiver thread only, harness allocations excluded), bookkeeping allowances stated in the evidence; the number of objects in reception at once is bounded by the time-out, not by a configured count."),
     "C05": ("exploration", "exhaustive enumeration of a Content-Location grammar to a depth bound, each string delivered through a real session into the real ObjectWriterFS inside a sandbox tree with canaries", "gridx",
             "DESIGN.md §3 C05",
-            "Every Content-Location = 9 prefixes (file:///, file://host/, http://h/, x:, x:/, x://h/, none, /, //) x every sequence of at most 3 (quick) / 5 (thorough) segments from {n, ., .., empty, %2e%2e, ..%2f, a\\..\\b, an absolute path inside the sandbox} is put in a harness-written FDT and delivered into ObjectWriterFS for the outcomes complete, error (MD5 mismatch) and interrupted; afterwards the sandbox tree minus the destination directory (7 levels of ancestors and siblings holding canary and same-named victim files) must be bit-identical.",
+            "Every Content-Location = 9 prefixes (file:///, file://host/, http://h/, x:, x:/, x://h/, none, /, //) x every sequence of at most 3 (quick) / 5 (thorough) segments from {n, ., .., empty, %2e%2e, ..%2f, a\\..\\b, an absolute path inside the sandbox} is put in a harness-written FDT and delivered into ObjectWriterFS for the outcomes complete, error (MD5 mismatch) and interrupted; afterwards the sandbox tree minus the destination directory (two empty directories, then 7 levels of ancestors and siblings holding canary and same-named victim files) must be bit-identical, directories included, and the destination directory itself must still exist.",
             "Trusted: the tree scan (an escape above the 7 sandbox levels is impossible with at most 5 segments plus the prefixes used); random strings are not used; symlinks planted inside the destination are out of scope."),
     "C10": ("model_checking", "explicit-state BFS over the real Sender collecting every emitted FDT instance with its publication-time reference set, documents then read by an independent XML parser (expat) and by flute's own receiver", "statex",
             "DESIGN.md §3 C10",
-            "All histories over {add, remove, publish, set_complete, drain, tick 0.1 s / duration/2 / duration} to depth 5 (quick) / 6 (thorough, state cap reported) plus a directed family (add n, publish, read i packets, remove object k possibly in flight, publish, drain for every n, k, i), for publish mode x fdt_start_id {0,1,2^20-2} x fdt_duration {1,5,10,11,30,31,3600 s, 2 days} x FDT cenc x sub-second publish phase (fixed covering sub-grids per tier), over a catalogue of 4 objects whose metadata contain quotes, &, <, >, ]]>, non-ASCII and 300-character strings, per-object OTI incl. RaptorQ, every cache directive, groups, ETag, cenc. Every completely emitted instance is reassembled and inflated from its TOI-0 packets by rfc.rs; ids must be +1 mod 2^20, one id never denotes two contents, after every drain the newest instance is unexpired; each distinct document is parsed by expat and by flute's receiver and must list exactly the reference set with every attribute unaltered and Expires = publish second + duration.",
+            "All histories over {add, remove, publish, set_complete, drain, tick 0.1 s / duration/2 / duration} to depth 5 (quick) / 6 (thorough, state cap reported) plus a directed family (add n, publish, read i packets, remove object k possibly in flight, publish, drain for every n, k, i), for publish mode x fdt_start_id {0,1,2^20-2} x fdt_duration {1,5,10,11,30,31,3600 s, 2 days} x FDT cenc x sub-second publish phase (fixed covering sub-grids per tier), over a catalogue of 4 objects whose metadata contain quotes, &, <, >, ]]>, non-ASCII and 300-character strings, per-object OTI incl. RaptorQ, every cache directive, groups, ETag, cenc. Every completely emitted instance is reassembled and inflated from its TOI-0 packets by rfc.rs; ids must be +1 mod 2^20, one id never denotes two contents, after every drain the newest instance is unexpired; each distinct (document, expectation) pair is parsed by expat and by flute's receiver and must list exactly the reference set with every attribute unaltered (cache expiry relative to its own publication) and Expires = publish second + duration.",
             "Trusted: rfc.rs reassembly, expat, the reference set (API results + Subscriber events at the log position of the publication), one queue with multiplex 1 so that at most one publication happens per read; tab/CR/LF excluded from the strings (DESIGN §5)."),
 }
 
